@@ -232,26 +232,36 @@ Print Assumptions C03_500_not_escape.
 (* [ran hs] = number of hooks of hs (in call order) that get called: up to and
    including the first failing one.  Before hooks: registration order, once each,
    that prefix, all before routing; routing and at most one handler call only if
-   no before hook failed.  After hooks: reverse registration order, once each,
-   after everything else, for every outcome (404, 405, failing before hook,
-   crash); all of them unless an after hook itself fails. *)
+   no before hook failed.  After hooks: the after_request list as it is when its
+   emit starts ([after_call_list p]), once each, after everything else, for every
+   outcome (404, 405, failing before hook, crash); all of them unless an after
+   hook itself fails.  That list is the reverse registration order unless a hook
+   or the handler of this request called add_hook / remove_hook on it before;
+   edits made DURING an emit never change that emit (the model iterates a copy,
+   as the code does), and edits of the before_request list show from the next
+   request on. *)
 Theorem C03_hooks_lifecycle :
   forall p,
     exists evM,
       fst (fst (handle p))
       = map EvHookB (firstn (ran (p_before p)) (seq 0 (length (p_before p))))
         ++ evM
-        ++ map EvHookA (firstn (ran (rev (p_after p))) (rev (seq 0 (length (p_after p)))))
-      /\ (all_ok (p_before p) = false -> evM = [])
-      /\ (all_ok (p_before p) = true ->
+        ++ map EvHookA (map fst (firstn (ran (map snd (after_call_list p))) (after_call_list p)))
+      /\ (all_ret (p_before p) = false -> evM = [])
+      /\ (all_ret (p_before p) = true ->
            exists evR, evM = EvRouted :: evR /\ forallb mid_event evR = true /\ count is_handler evR <= 1)
-      /\ (all_ok (p_before p) = true -> ran (p_before p) = length (p_before p))
-      /\ (all_ok (rev (p_after p)) = true -> ran (rev (p_after p)) = length (p_after p)).
+      /\ (all_ret (p_before p) = true -> ran (p_before p) = length (p_before p))
+      /\ (all_ret (map snd (after_call_list p)) = true ->
+           ran (map snd (after_call_list p)) = length (after_call_list p))
+      /\ (no_hook_edits p ->
+           map fst (after_call_list p) = rev (seq 0 (length (p_after p)))
+           /\ map snd (after_call_list p) = rev (p_after p)).
 Proof.
   intros p. destruct (hooks_lifecycle p) as [evM [A [B C]]]. exists evM.
-  split; [exact A|split; [exact B|split; [exact C|split]]].
+  split; [exact A|split; [exact B|split; [exact C|split; [|split]]]].
   - apply ran_all_ok.
-  - intros H. rewrite (ran_all_ok _ H). apply rev_length.
+  - intros H. rewrite (ran_all_ok _ H). apply map_length.
+  - apply after_call_list_plain.
 Qed.
 Print Assumptions C03_hooks_lifecycle.
 
